@@ -48,8 +48,9 @@ func run(c Case) (v vkit.Verdict) {
 		if p := vkit.Catch(func() {
 			switch op.K {
 			case "search":
-				q := &geom.Bounds{Min: geom.Point{X: float64(op.Box[0]), Y: float64(op.Box[1])},
-					Max: geom.Point{X: float64(op.Box[0] + op.Box[2]), Y: float64(op.Box[1] + op.Box[3])}}
+				qx0, qy0 := float64(op.Box[0])+op.F[0], float64(op.Box[1])+op.F[1]
+				q := &geom.Bounds{Min: geom.Point{X: qx0, Y: qy0},
+					Max: geom.Point{X: qx0 + float64(op.Box[2]) + op.F[2], Y: qy0 + float64(op.Box[3]) + op.F[3]}}
 				var want []geom.Geom
 				for _, o := range m.Live {
 					if rtreekit.Intersects(o.Bounds(), q) {
@@ -104,7 +105,7 @@ func run(c Case) (v vkit.Verdict) {
 func TestProp(t *testing.T) {
 	vkit.Main(t, vkit.Spec[Case]{
 		ID: "C11",
-		Rule: "rapid: histories of 1-400 operations (insert-heavy, delete-heavy, mixed and hot-spot phases - the last piles coincident and concentric boxes on one location) (thorough tier: 5% of 800-2500 operations with fan-out 8/25/50 on a 60-unit grid) over trees with max fan-out 4-8 (75%) or 25/50 and 2<=min<=max/2; objects are *Bounds pointers, Point values or comparable " +
+		Rule: "rapid: histories (a third with non-integer coordinates, incl. zero-width and zero-height boxes at float positions) of 1-400 operations (insert-heavy, delete-heavy, mixed and hot-spot phases - the last piles coincident and concentric boxes on one location) (thorough tier: 5% of 800-2500 operations with fan-out 8/25/50 on a 60-unit grid) over trees with max fan-out 4-8 (75%) or 25/50 and 2<=min<=max/2; objects are *Bounds pointers, Point values or comparable " +
 			"struct values on a 4/8/20 integer grid (coincident, touching, degenerate boxes frequent); operations: insert, insert a duplicate of a stored object, delete a stored " +
 			"object, delete an absent look-alike, delete everything in a strided order, search with a drawn box; insert-heavy and delete-heavy phases alternate. After every mutating " +
 			"step: Size, covering search as a multiset, and - through the verif snapshot hook - leaves at one depth = Depth(), every entry box the exact envelope of its subtree, " +
